@@ -33,7 +33,9 @@ for p in props:
         "Post-conditions taken from the property statement are attached (sidecar) to the real /repo functions; "
         "verification conditions are generated from the AST of the loaded functions by symbolic execution over all "
         "feasible paths with symbolic inputs and discharged by z3 (cvc5 on unknown) for all values at once; "
-        "refutations are replayed natively on the real code.")
+        "refutations are replayed natively on the real code. What is quantified symbolically are VALUES; structural shapes (numbers of modules, "
+        "patterns, cells, envelope points, which chunks are present) are enumerated per case, and any part that is only evaluated natively is "
+        "listed under bounded_parts in the evidence file and is not counted among the discharged obligations.")
     checks.append({
         "property_id": pid,
         "quick_cmd": f"./check {pid} --tier quick",
